@@ -468,8 +468,9 @@ def replay_lifecycle(failure):
 
 # ================================================================================================== Filter.loop_once
 class TrivialLoop:
-    def __init__(self, inv=None, havoc=None):
+    def __init__(self, inv=None, havoc=None, heap_keeps=()):
         self._inv, self._havoc = inv, havoc
+        self.heap_keeps = heap_keeps        # (class, field) of append-only ghost logs the body extends; the justification is at the call site
 
     def inv(self, ex, env):
         return self._inv(ex, env) if self._inv else []
@@ -533,18 +534,19 @@ class LoopOnceUnit(Unit):
             raise Unsupported('contract no longer binds: Filter.loop_once no longer has its two polling loops')
 
         def havoc_src(ex_, env):
-            if st != 'inf':
-                env.assign('sources_timeout', fresh_int('sources_timeout_left'))
+            # an unlimited timeout stays unlimited (inf - POLL_TIMEOUT_MS == inf); a finite one is any remaining budget
+            env.assign('sources_timeout', fresh_int('sources_timeout_left') if st != 'inf' else float('inf'))
 
         def havoc_out(ex_, env):
-            if ot != 'inf':
-                env.assign('outputs_timeout', fresh_int('outputs_timeout_left'))
+            env.assign('outputs_timeout', fresh_int('outputs_timeout_left') if ot != 'inf' else float('inf'))
 
         def inv_out(ex_, env):
             return [('C01.id_carry: every retry of the send passes the SAME processed frames (hence the same received id)', env.lookup('frames') is processed),
                     ('C03.once: process() is called once per received set', len(pf_calls) == 1)]
-        ex.loop_specs[ex.loop_key(loops[0])] = TrivialLoop(None, havoc_src)
-        ex.loop_specs[ex.loop_key(loops[1])] = TrivialLoop(inv_out, havoc_out)
+        ex.loop_specs[ex.loop_key(loops[0])] = TrivialLoop(None, havoc_src, heap_keeps=(('loopmq', 'log'),))
+        # ghost log mq.log: append-only, and the obligations on it are per entry (every send passes `processed`), so entries of earlier iterations are
+        # covered by the generic iteration
+        ex.loop_specs[ex.loop_key(loops[1])] = TrivialLoop(inv_out, havoc_out, heap_keeps=(('loopmq', 'log'),))
         ex.replay_info = dict(deadline=deadline)
         ex.model_vars = dict(now=now, exit_after_t=T)
         res = 'returned'
